@@ -108,7 +108,8 @@ class HistoryMachine(RuleBasedStateMachine):
 
     @rule(i=SK, kis=st.lists(IDX, min_size=0, max_size=6), how=st.sampled_from(["list", "list", "tuple", "iter", "reentrant"]), data=st.data())
     def update_list(self, i, kis, how, data):
-        self.do({"op": "update_list", "i": i % self.N, "keys": [self.key(k) for k in kis], **({"as": how} if how != "list" else {}), **self._draws(data)})
+        extra = {"extra": self.key(data.draw(IDX, label="extra"))} if how == "reentrant" else {}
+        self.do({"op": "update_list", "i": i % self.N, "keys": [self.key(k) for k in kis], **({"as": how} if how != "list" else {}), **extra, **self._draws(data)})
 
     @precondition(lambda self: self.LONG_LISTS)
     @rule(i=SK, kis=st.lists(IDX, min_size=2, max_size=5), n=st.sampled_from([255, 256, 257, 300, 1024]), data=st.data())
